@@ -886,6 +886,30 @@ func runSQL(cfg *config) {
 			sqlTextCase(cfg, id, render(rr, g.w, false), "(select (list (dc * -)) (from (table 74 none)) (where "+c+") (group ) (order ) (limit 0 0) (offset 0 0))", "boolean")
 		}
 	}
+	// long parenthesis-free conditions (dozens to hundreds of comparisons joined by AND / OR): parsed in
+	// time linear in their length, to the right-nested tree
+	for _, n := range []int{24, 40, 64, 150, 400} {
+		rr := r.Fork()
+		var parts []string
+		var ops []bool
+		for k := 0; k < n; k++ {
+			parts = append(parts, fmt.Sprintf("c%d = %d", k%7, k))
+			ops = append(ops, rr.Bool())
+		}
+		var sb strings.Builder
+		for k, p := range parts {
+			if k > 0 {
+				sb.WriteString([]string{" OR ", " AND "}[map[bool]int{false: 0, true: 1}[ops[k]]])
+			}
+			sb.WriteString(p)
+		}
+		id++
+		sqlTextCase(cfg, id, "SELECT * FROM t WHERE "+sb.String(), "", "long-condition")
+		id++
+		sqlTextCase(cfg, id, "SELECT * FROM t JOIN u ON "+sb.String(), "", "long-condition")
+		id++
+		sqlTextCase(cfg, id, "DELETE FROM t WHERE "+sb.String(), "", "long-condition")
+	}
 	// statements slid across the scanner's read-buffer boundaries (1024, 2048 bytes): every word of the
 	// statement - keywords, identifiers that begin with a keyword, literals - lies across a boundary in
 	// one of the renderings; the parse must be the same statement each time
